@@ -400,7 +400,7 @@ def run(pm, ctx):
                           "KLGEMINI constructor", line=mi.node.lineno)
 
     # ---------------------------------------------------------------- C16-e cross-parameter checks
-    ctx.rule("C16-e", "documented inconsistent combinations must raise before anything is trained", floor=6)
+    ctx.rule("C16-e", "documented inconsistent combinations must raise before anything is trained", floor=22)
     cross_checks(pm, ctx)
 
     # ---------------------------------------------------------------- C16-f guards of print_kauri_tree
@@ -447,6 +447,17 @@ def run(pm, ctx):
     ctx.rule("C16-h", "the array handed to parameter initialisation, affinity computation and batching must be the "
              "result of validate_data(..., ensure_min_samples=<number of clusters>)", floor=3)
     validated_flow(pm, ctx)
+
+    # ---------------------------------------------------------------- C16-i the validating decorator itself
+    from .c16_extra import decorator_integrity, data_classes
+    ctx.rule("C16-i", "constraint_params validates every argument that has a table entry, before the call, and raises a "
+             "ValueError/TypeError-family error exactly when no alternative constraint is satisfied", floor=4)
+    decorator_integrity(pm, ctx, "C16-i")
+
+    # ---------------------------------------------------------------- C16-j classes of malformed training data
+    ctx.rule("C16-j", "each class of malformed training data (non-numeric, sparse, non-finite, not 2-D, empty) is rejected by a "
+             "validation call that dominates every use of the data", floor=10)
+    data_classes(pm, ctx, "C16-j")
 
 
 def run_containment(pm, ctx, te, rid):
@@ -562,24 +573,9 @@ def cross_checks(pm, ctx):
             ctx.ok("C16-e", f"{cls}.fit: groups_ = check_groups(groups, n_features) before training")
         else:
             ctx.violation("C16-e", u.relpath, f"{cls}.fit", "check_groups", "groups are not checked before training", line=f.lineno)
-    # check_groups raises on out-of-range, duplicates, non-partition
-    su = pm.unit("gemclus.sparse._base_sparse")
-    f = su.func("check_groups")
-    raises = []
-    for n in ast.walk(f):
-        if isinstance(n, ast.If) and n.body and isinstance(n.body[-1], ast.Raise):
-            raises.append(norm_src(n.test))
-    need = {
-        "range": lambda s: "min(all_indices) < 0" in s and "max(all_indices) >= n_features_in" in s and " or " in s,
-        "partition": lambda s: "set(all_indices) != set(range(n_features_in))" in s,
-        "duplicates": lambda s: "len(set(all_indices)) != len(all_indices)" in s,
-    }
-    for k, pred in need.items():
-        if any(pred(s) for s in raises):
-            ctx.ok("C16-e", f"check_groups rejects {k}")
-        else:
-            ctx.violation("C16-e", su.relpath, "check_groups", f"{k} check", f"check_groups has no raising {k} test; tests found: {raises}",
-                          line=f.lineno)
+    # check_groups: decision table over abstract group lists
+    from .c16_extra import check_groups_table
+    check_groups_table(pm, ctx, "C16-e")
 
 
 def print_guards(pm, ctx, rid):
@@ -728,4 +724,25 @@ def controls(pm, tier):
                 return {u.relpath: replace_node(u, st, norm_src(st.value))}
         return None
     out.append({"name": "result of validate_data discarded in DiscriminativeModel.fit", "rule": "C16-h", "apply": unvalidated_array})
+
+    def textual(mod, find, repl, rule, name):
+        def apply(pm_):
+            u = pm_.unit(mod)
+            if find not in u.src:
+                return None
+            return {u.relpath: u.src.replace(find, repl, 1)}
+        out.append({"name": name, "rule": rule, "apply": apply})
+    textual("gemclus.sparse._base_sparse", "        if len(all_indices) == n_features_in:", "        if len(all_indices) >= n_features_in:", "C16-e",
+            "covering but overlapping groups take the partition branch")
+    textual("gemclus.sparse._base_sparse", "            if len(set(all_indices)) != len(all_indices):", "            if len(set(all_indices)) > len(all_indices):", "C16-e",
+            "duplicate test can never fire")
+    textual("gemclus._constraints", "                if param_name not in parameter_constraints:\n                    continue",
+            "                if param_name not in parameter_constraints:\n                    break", "C16-i", "validation stops at the first argument without entry")
+    textual("gemclus._constraints", "                if not is_satisfied:\n                    if len(local_constraints) == 1:",
+            "                if not is_satisfied and len(local_constraints) > 1:\n                    if len(local_constraints) == 1:", "C16-i",
+            "single-constraint parameters never raise")
+    textual("gemclus._base_gemini", "        X = check_array(X)\n        X = validate_data(self, X, accept_sparse=True, dtype=np.float64, ensure_min_samples=self.n_clusters)",
+            "        X = validate_data(self, X, dtype=np.float64, ensure_min_samples=self.n_clusters)", "C16-j", "numeric-dtype guard merged away")
+    textual("gemclus.tree.kauri", "        X = check_array(X)\n        X = validate_data(self, X, accept_sparse=True,", "        X = validate_data(self, X, accept_sparse=True,", "C16-j",
+            "Kauri.fit accepts sparse and string data")
     return out
